@@ -48,6 +48,7 @@ class Overlay:
         self.loops = {}       # (fn, k) -> text
         self.proofs = {}      # (kind, fn, k) -> text
         self.attrs = {}       # fn -> attribute text spliced in front of the fn
+        self.stubs = set()    # fns emitted as signature + external_body (R6): body dropped
         self._parse()
 
     def _parse(self):
@@ -74,12 +75,16 @@ class Overlay:
                 self.loops.update(inc.loops)
                 self.proofs.update(inc.proofs)
                 self.attrs.update(inc.attrs)
+                self.stubs |= inc.stubs
                 i += 1
             elif d == 'kernel':
                 self.name = parts[1]
                 for p in parts[2:]:
                     if p.startswith('serves='):
                         self.serves = p[7:].split(',')
+                i += 1
+            elif d == 'stub':
+                self.stubs.add(parts[1])
                 i += 1
             elif d == 'item':
                 opts = {}
@@ -383,6 +388,22 @@ def transform_fn(it: rs.Item, qual: str, ov: Overlay, log, used):
     where = '%s:%d %s' % (it.path, it.lines[0], qual)
     header, body = it.header, it.body
     con = ov.contracts.get(qual)
+    if qual in ov.stubs:
+        # R6: signature verbatim, body NOT extracted; contract is an assumption (listed in evidence)
+        used.add(('stub', qual, None))
+        log.append(dict(rule='R6', where=where, edit='callee declared external_body with an ASSUMED contract; body not extracted'))
+        ctext = ''
+        if con:
+            used.add(('contract', qual, None))
+            hm = rs.mask(header)
+            if con['ret']:
+                p = hm.find('(')
+                pc = rs.match_close(hm, p)
+                arrow = hm.find('->', pc)
+                rtype = header[arrow + 2:]
+                header = header[:arrow + 2] + splice(' (%s:' % con['ret']) + rtype.rstrip() + splice(')') + rtype[len(rtype.rstrip()):]
+            ctext = splice('\n' + con['text'] + '\n')
+        return splice('#[verifier::external_body]\n') + header + ctext + splice('{ unimplemented!() }') + '/*@STUB*/'
     # --- rewrites R2-R4 first (they keep the number and order of loops)
     body = r2_debug_assert(body, log, where)
     body = r3_slice_patterns(body, log, where)
@@ -473,6 +494,7 @@ def build(overlay_path: str, repo: str, out_path: str):
     ov = Overlay(overlay_path)
     log, used, functions, checks = [], set(), [], []
     chunks = ['// GENERATED by /verif/engine/extract.py from %s and %s -- do not edit\n' % (repo, overlay_path),
+              '#![feature(allocator_api)]\n',
               '#![allow(unused_imports, dead_code, unused_variables, unused_mut, unused_assignments, non_snake_case, unreachable_code, unreachable_patterns)]\n',
               'use vstd::prelude::*;\n', 'verus! {\n']
     for text, ln in ov.pre:
@@ -554,6 +576,9 @@ def build(overlay_path: str, repo: str, out_path: str):
     for (qual, k) in ov.loops:
         if ('loop', qual, k) not in used:
             raise ExtractError('anchor lost: loop %s#%d matches no extracted fn' % (qual, k))
+    for qual in ov.stubs:
+        if ('stub', qual, None) not in used:
+            raise ExtractError('anchor lost: stub %s matches no extracted fn' % qual)
     for qual in ov.attrs:
         if ('attr', qual, None) not in used:
             raise ExtractError('anchor lost: attr for %s matches no extracted fn' % qual)
@@ -570,6 +595,12 @@ def build(overlay_path: str, repo: str, out_path: str):
         region = out[m.end():e]
         src, _ = load(m.group(1))
         orig = src[int(m.group(2)):int(m.group(3))]
+        if region.endswith('/*@STUB*/'):
+            hdr = invert(region[:-len('/*@STUB*/')])
+            if not orig.startswith(hdr) or not orig[len(hdr):].lstrip().startswith('{'):
+                raise ExtractError('self-check failed for stub %s bytes %s-%s' % m.groups())
+            n_checked += 1
+            continue
         if invert(region) != orig:
             raise ExtractError('self-check failed for %s bytes %s-%s: emitted text is not the repository text modulo R1-R4' % m.groups())
         n_checked += 1
